@@ -249,6 +249,22 @@ def check(P, R):
     from ..paths import Explorer
     X = Explorer(f, P)
     sink_nodes = [g.node_of_stmt(c)[0] for c in sinks]
+    # whatever is not inside the root is answered 403 / 404: every other answer of static_file lies behind the pass edge of the containment test
+    def _deny_value(v):
+        return isinstance(v, ast.Call) and (dotted(v.func) or '').split('.')[-1] == 'HTTPError' and v.args and isinstance(v.args[0], ast.Constant) and v.args[0].value in (403, 404)
+    for rn in [n for n in g.nodes if n.kind == 'stmt' and isinstance(n.ast, (ast.Return, ast.Raise)) and n in g.reachable()]:
+        v = n_val = rn.ast.value if isinstance(rn.ast, ast.Return) else rn.ast.exc
+        if v is None or _deny_value(v):
+            continue
+        if isinstance(v, ast.Name):
+            ds_ = rd.root_defs(rn, v.id)
+            if ds_ and all(d.value is not None and _deny_value(d.value) for d in ds_):
+                continue
+        okr = any(g.edge_dominates(n, lab, rn) or X.edge_dominates(n, lab, rn) for (n, t, lab) in guards)
+        R.ob('C16.b', f, rn.ast, okr, text=f'`{short(rn.ast)}` lies behind the containment test', detail='' if okr else
+             f'`{short(rn.ast)}` answers a request before the containment test was passed: a name outside the root gets this answer (it reveals whether the file exists, '
+             f'and when it was modified) instead of 403 / 404',
+             why='anything not inside the root is answered with 403 or 404', key_extra='answer-behind-guard')
     for c in sinks:
         cn = g.node_of_stmt(c)[0]
         arg = c.args[0] if c.args else None
